@@ -20,6 +20,22 @@ CLAIMED = {
              'ground truth. Default (numpy) backend in the quick tier; other backends in the thorough tier where '
              'built. Known findings KF-C03-* are listed in known_findings.json.',
         ref='§3 C03'),
+    'C13': dict(
+        technique=TECH + 'interleaved user workflows in one process vs each workflow alone in a pristine fork '
+                         '(refinement), with API/interrupt/I-O/RHS faults and cache wipes',
+        text='2-4 seeded user workflows (construct by Python classes or YAML, update_var, get_run_func, '
+             'get_jacobian_func, run with clear/in_place on and off, probes of functions returned earlier, clear, '
+             'clear_frontend_caches) are interleaved by a seeded scheduler in one process while faults are injected '
+             '(legitimately failing models, sys.settrace interruption at the n-th internal call, RHS exceptions, OSError '
+             'on source-file write/remove incl. torn files, cache wipes by another workflow, stale generated files, '
+             'colliding operator/circuit/file/function names, shared template objects). Every observation must equal '
+             'the one at the same position when that workflow alone runs in a pristine forked process; returned '
+             'functions must keep their values (L-keep). Sampling of histories, not proof.',
+        note='Trusted: fork() gives a pristine interpreter state; canonical observation (args by frontend name, state '
+             'map, vector field at probe states, run frames) is what a user can see. Default backend only in the quick '
+             'tier. Generator respects documented contracts (in_place=True consumes a template; from_yaml caches by '
+             'path).',
+        ref='§3 C13'),
     'C19': dict(
         technique=TECH + 'stateful machine on the real DDEHistory vs a pure-Python reference history',
         text='Seeded exploration of update/query/caller-mutation/allocation-fault histories on the real DDEHistory '
@@ -32,7 +48,7 @@ CLAIMED = {
 }
 
 _P = 'check under construction in this session (planned as claimed, see DESIGN §0/§3); not decided yet'
-PENDING = {k: _P for k in ['C07', 'C08', 'C09', 'C10', 'C11', 'C13', 'C14', 'C15']}
+PENDING = {k: _P for k in ['C07', 'C08', 'C09', 'C10', 'C11', 'C14', 'C15']}
 
 NA = {
     'C01': 'pure function of (model, state, parameters): no schedule, clock, fault or history in the statement; '
